@@ -509,13 +509,13 @@ func (g *Gen) recordReject(src string, err error) {
 		return
 	}
 	lhs, rhs := stmt.LHS(), stmt.RHS()
-	if lhs.Operator() != 0 && lhs.IsThisDotFoo() == 0 {
+	if lhs.Operator() != 0 && lhs.IsThisDotFoo() == 0 && lhs.Operator() != t.IDOpenBracket {
 		return
 	}
 	tm := g.fr.tm
 	ls, ok1 := exprSexpr(tm, lhs, nil)
 	rs, ok2 := exprSexpr(tm, rhs, nil)
-	if !ok1 || !ok2 || !strings.HasPrefix(ls, "v ") {
+	if !ok1 || !ok2 || !(strings.HasPrefix(ls, "v ") || strings.HasPrefix(ls, "ix ")) {
 		return
 	}
 	op := ""
